@@ -205,8 +205,10 @@ theorem chunks_length_numChunks (workers : Nat) (l : List ι) :
     have hne : chunkSize l.length workers ≠ 0 := by omega
     simp [hne]
 
-/-- **`Pool.map` is `map`.**  For every worker count (even 0 — the chunk size formula then still yields 1) and every
-    completion order under which every chunk completes, `pool.map(f, args)` returns `[f(a) for a in args]`. -/
+/-- **`Pool.map` is `map`.**  For every worker count and every completion order under which every chunk completes,
+    `pool.map(f, args)` returns `[f(a) for a in args]`.  (The statement also covers `workers = 0`, but only through Lean's
+    `n % 0 = n`: CPython has no such pool — `Pool(0)` raises `ValueError`, modelled by `build … = none`.  The statement about
+    the library is `poolMap_eq_pos` below, whose chunk size is characterised without any division by zero in `chunkSize_spec`.) -/
 theorem poolMap_eq (workers : Nat) (order : List Nat) (f : A → ρ) (args : List A)
     (hcover : ∀ k, k < numChunks args.length workers → k ∈ order) :
     poolMap workers order f args = some (args.map f) := by
@@ -222,6 +224,41 @@ theorem poolMap_eq (workers : Nat) (order : List Nat) (f : A → ρ) (args : Lis
     rfl
   · have hc := chunkSize_pos args.length workers hp
     rw [chunks_flatten _ hc]
+
+/-- for at least one worker the model's chunk size IS CPython's `ceil(len / (4·workers))`: the least `c` with
+    `c · 4·workers ≥ len` — no `% 0`, `/ 0` involved -/
+theorem chunkSize_spec (len workers : Nat) (hw : 1 ≤ workers) :
+    len ≤ chunkSize len workers * (workers * 4) ∧ ∀ c, len ≤ c * (workers * 4) → chunkSize len workers ≤ c := by
+  have hp : 0 < workers * 4 := by omega
+  have hdm := Nat.div_add_mod len (workers * 4)
+  have hlt := Nat.mod_lt len hp
+  unfold chunkSize
+  by_cases h0 : len = 0
+  · rw [if_pos h0]; subst h0; exact ⟨by simp, fun c _ => Nat.zero_le c⟩
+  · rw [if_neg h0]
+    by_cases hm : len % (workers * 4) = 0
+    · rw [if_pos hm]
+      rw [hm, Nat.add_zero] at hdm
+      refine ⟨by rw [Nat.mul_comm]; omega, fun c hc => ?_⟩
+      rw [Nat.mul_comm c] at hc
+      exact Nat.div_le_of_le_mul hc
+    · rw [if_neg hm]
+      refine ⟨?_, fun c hc => ?_⟩
+      · rw [Nat.add_mul, Nat.one_mul, Nat.mul_comm]; omega
+      · apply Nat.succ_le_of_lt
+        apply Nat.lt_of_not_le
+        intro hle
+        have := Nat.mul_le_mul_right (workers * 4) hle
+        rw [Nat.mul_comm (len / (workers * 4))] at this
+        omega
+
+/-- **`Pool.map` is `map`, for the pools that exist** (`workers ≥ 1`): the form of `poolMap_eq` that says something about
+    CPython; nothing in it rests on the value Lean gives to `n % 0` -/
+theorem poolMap_eq_pos (workers : Nat) (hw : 1 ≤ workers) (order : List Nat) (f : A → ρ) (args : List A)
+    (hcover : ∀ k, k < numChunks args.length workers → k ∈ order) :
+    poolMap workers order f args = some (args.map f)
+      ∧ args.length ≤ chunkSize args.length workers * (workers * 4) :=
+  ⟨poolMap_eq workers order f args hcover, (chunkSize_spec args.length workers hw).1⟩
 
 /-- the result of `Pool.map` does not depend on the number of workers nor on the schedule -/
 theorem poolMap_workers_schedule_irrelevant (w₁ w₂ : Nat) (π₁ π₂ : List Nat) (f : A → ρ) (args : List A)
@@ -478,6 +515,15 @@ theorem histories_agree (K : Kernel C P Q A ρ α) (h₁ h₂ : List (Op P Q ρ 
   intro a ha b hb
   rw [rebuild_idempotent K h₁ o₁ ht₁ hk₁ a ha, rebuild_idempotent K h₂ o₂ ht₂ hk₂ b hb, hc]
 
+/-- **constructor attributes changed between builds**: whatever history `h₁` the instance has been through, once its
+    constructor attributes are replaced by `c'` (the caller assigns `obj.layer_r0s = …`, `obj.gs_positions = …`) every
+    build of any admissible further history `h₂` returns the matrix of a FRESH object made with `c'` — nothing of the old
+    configuration is carried over -/
+theorem reconfigure_between_builds (K : Kernel C P Q A ρ α) (h₁ h₂ : List (Op P Q ρ α)) (o : Obj C P Q ρ α) (c' : C)
+    (ht : 1 ≤ (finalState K h₁ o).threads) (hk : HistOK K c' (finalState K h₁ o).threads h₂) :
+    ∀ out ∈ run K h₂ { finalState K h₁ o with cfg := c' }, out = some (reference K c') :=
+  rebuild_idempotent K h₂ { finalState K h₁ o with cfg := c' } ht hk
+
 /-! ### the theorems are not vacuous, and the model can tell a wrong collection from a right one -/
 
 section NonVacuity
@@ -520,6 +566,17 @@ example : HistOK logKernel exObj.cfg exObj.threads
     rcases (by omega : l = 0 ∨ l = 1) with rfl | rfl <;>
       rcases (by omega : k = 0 ∨ k = 1 ∨ k = 2 ∨ k = 3 ∨ k = 4 ∨ k = 5) with rfl | rfl | rfl | rfl | rfl | rfl <;> decide
   refine ⟨fun h => absurd rfl h, ?_, fun _ => hs, fun _ => hs, ?_, fun h => absurd rfl h, trivial⟩ <;> decide
+
+/-- the hypotheses of `reconfigure_between_builds` on a concrete case: after a build the configuration (3 WFS, 2 layers) is
+    replaced by (1 WFS, 1 layer), then single-process builds follow; and the two configurations have different references,
+    so the statement is about the NEW configuration -/
+example : 1 ≤ (finalState logKernel [.build exSched] exObj).threads
+    ∧ HistOK logKernel (1, 1) (finalState logKernel [.build exSched] exObj).threads [.build exSched, .build exSched]
+    ∧ reference logKernel (1, 1) ≠ reference logKernel exObj.cfg := by
+  refine ⟨by decide, ⟨fun h => absurd rfl h, fun h => absurd rfl h, trivial⟩, by decide⟩
+
+/-- `chunkSize_spec` at a concrete pool: 6 tasks on 2 workers go out in chunks of 1, 13 tasks on 1 worker in chunks of 4 -/
+example : chunkSize 6 2 = 1 ∧ chunkSize 13 1 = 4 := by decide
 
 /-- three workers with queues [2,0], [1], [3]: one of their interleavings -/
 example : Interleaving [[2, 0], [1], [3]] [2, 3, 1, 0] :=
